@@ -254,6 +254,51 @@ func c09eval(c c09Case) []ev.Finding {
 		out = append(out, ev.Finding{Sig: sig, Witness: wit,
 			Detail: fmt.Sprintf("Eval(Reduce(e,r1), all) = %T(%v) but Eval(e, all) = %T(%v); reduced form %s", v1, v1, v2, v2, red), Case: c, Rank: c.Shape*10 + len(r1)})
 	}
+	// the evaluation rules the property names: integer division is float division, division and modulo by zero are zero
+	if (c.Shape == 1 || c.Shape == 6 || c.Shape == 7) && len(c.Leaves) == 2 {
+		op := c09ops[c.Ops[0]].tok
+		l, r := c.Leaves[0].value(), c.Leaves[1].value()
+		isZero := func(v interface{}) bool {
+			switch x := v.(type) {
+			case int64:
+				return x == 0
+			case uint64:
+				return x == 0
+			case float64:
+				return x == 0
+			}
+			return false
+		}
+		numeric := func(v interface{}) bool {
+			switch v.(type) {
+			case int64, uint64, float64:
+				return true
+			}
+			return false
+		}
+		if (op == influxql.DIV || op == influxql.MOD) && numeric(l) && numeric(r) && isZero(r) {
+			for _, v := range []interface{}{v2, v1} {
+				if !isZero(v) {
+					kind := "integer"
+					if _, lf := l.(float64); lf {
+						kind = "float"
+					} else if _, rf := r.(float64); rf {
+						kind = "float"
+					}
+					out = append(out, ev.Finding{Sig: fmt.Sprintf("by-zero-not-zero:%s:%s", c09ops[c.Ops[0]].text, kind), Witness: wit,
+						Detail: fmt.Sprintf("%s evaluates to %T(%v); division and modulo by zero are zero", text, v, v), Case: c, Rank: c.Shape})
+					break
+				}
+			}
+		}
+		if li, ok := l.(int64); ok && op == influxql.DIV {
+			if ri, ok := r.(int64); ok && ri != 0 {
+				if want := float64(li) / float64(ri); !sameValue(v2, want) {
+					out = append(out, ev.Finding{Sig: "integer-division-is-not-float-division", Witness: wit, Detail: fmt.Sprintf("%s evaluates to %T(%v), want float64(%v)", text, v2, v2, want), Case: c, Rank: c.Shape})
+				}
+			}
+		}
+	}
 	if path, a, b := astx.Diff(astx.Full, red, red2); path != "" {
 		out = append(out, ev.Finding{Sig: "not-idempotent:" + c09sigOf(c), Witness: wit,
 			Detail: fmt.Sprintf("Reduce twice differs from once at %s: %s vs %s", path, a, b), Case: c, Rank: c.Shape})
